@@ -56,13 +56,15 @@ type runOut struct {
 }
 
 type pkgFacts struct {
-	Path      string   `json:"path"`
-	Imports   []string `json:"imports"`    // Archive.Imports
-	InitCalls []string `json:"init_calls"` // paths whose $init is called inside this package's $init, in order
-	SelfReset bool     `json:"self_reset"` // `$pkg.$init = function() {};` precedes everything else in $init
-	BlkChecks int      `json:"blk_checks"` // import $init calls followed by the `$r.$blk` check
-	Links     []string `json:"links"`      // GoLinknames: ref|impl
-	Syms      []string `json:"syms"`       // LinkingName.String() of function decls of user packages
+	Path          string   `json:"path"`
+	Imports       []string `json:"imports"`        // Archive.Imports
+	InitCalls     []string `json:"init_calls"`     // paths whose $init is called inside this package's $init, in order
+	SelfReset     bool     `json:"self_reset"`     // `$pkg.$init = function() {};` precedes everything else in $init
+	BlkChecks     int      `json:"blk_checks"`     // import $init calls followed by the `$r.$blk` check
+	BlockingInits int      `json:"blocking_inits"` // non-import decls whose InitCode contains a suspension point ($blk)
+	InitItems     int      `json:"init_items"`     // non-import decls with InitCode
+	Links         []string `json:"links"`          // GoLinknames: ref|impl
+	Syms          []string `json:"syms"`           // LinkingName.String() of function decls of user packages
 }
 
 type result struct {
@@ -166,6 +168,14 @@ func facts(b *built, userPrefix string) (pkgs []pkgFacts, order []string, tail [
 			for _, m := range rxBlk.FindAllStringSubmatch(body, -1) {
 				if m[2] == m[3] {
 					pf.BlkChecks++
+				}
+			}
+		}
+		for _, d := range a.Declarations {
+			if len(d.ImportCode) == 0 && len(d.InitCode) > 0 {
+				pf.InitItems++
+				if bytes.Contains(d.InitCode, []byte("$blk")) || d.Blocking {
+					pf.BlockingInits++
 				}
 			}
 		}
